@@ -180,7 +180,7 @@ def run(tier: str, only=None) -> core.Result:
         res.harness_errors.append(f"generator: {g}")
     a_cases = mcases if do_a else []
     a_wire = [{"op": "validate", "target": c["target"], "wire": enc(c["wire"]), "lossless": True} for c in a_cases]
-    parent_sites = serialisers.discover_sites()
+    parent_sites = serialisers.discover_sites() + serialisers.composed_sites()
     b_wire = [{"op": "drive", "site": serialisers.driver_site_of(s) or s["site"]} for s in parent_sites] if do_b else []
 
     # part B runs in the background from the start: every serialiser site is driven in a process of its own (so that what
